@@ -67,17 +67,43 @@ Definition at_nodes (t : table) (v : view) (s : scope) (lv : level) (ids : optio
 Definition edges_in_view (edges : list (nat * nat)) (ev : list nat) (v : view) : list nat :=
   filter (fun e => mem (fst (nth e edges (0, 0))) v && mem (snd (nth e edges (0, 0))) v) ev.
 
+(* np.unique: sorted, without repetitions *)
+Fixpoint insert_sorted (x : nat) (l : list nat) : list nat :=
+  match l with
+  | [] => [x]
+  | y :: r => if x <? y then x :: l else if x =? y then l else y :: insert_sorted x r
+  end.
+Definition np_unique (l : list nat) : list nat := fold_right insert_sorted [] l.
+Definition mask_select (m : list bool) (u : list nat) : list nat :=
+  map snd (filter (fun p => fst p) (combine m u)).
+
+(* one selection step (_at_nodes).  A boolean mask with one entry per cell / branch /
+   compartment in view selects BY POSITION among them, in either scope (the positions of its
+   True entries are not indices); a mask of another length, and every other index form,
+   goes through _reformat_index and is matched against the scoped index column *)
+Definition select_step (t : table) (shape : list nat) (v : view) (s : scope) (lv : level) (i : idx) : option view :=
+  let generic :=
+    match reformat (length t) shape i with
+    | None => None
+    | Some ids => Some (at_nodes t v s lv ids)
+    end in
+  match i with
+  | IMask m =>
+      let u := np_unique (map (global_index t lv) v) in
+      if length m =? length u then Some (at_nodes t v Global lv (Some (mask_select m u))) else generic
+  | _ => generic
+  end.
+
 (* a chain of selections *)
 Definition sel := (scope * level * idx)%type.
 Fixpoint chain (t : table) (shape_of : view -> list nat) (v : view) (c : list sel) : option view :=
   match c with
   | [] => Some v
   | (s, lv, i) :: rest =>
-      match reformat (length t) (shape_of v) i with
+      match select_step t (shape_of v) v s lv i with
       | None => None
-      | Some ids =>
-          let v' := at_nodes t v s lv ids in
-          match v' with [] => None | _ => chain t shape_of v' rest end   (* "Nothing in view" *)
+      | Some [] => None                                                (* "Nothing in view" *)
+      | Some v' => chain t shape_of v' rest
       end
   end.
 
@@ -86,3 +112,8 @@ Fixpoint chain (t : table) (shape_of : view -> list nat) (v : view) (c : list se
 Definition count_distinct (l : list nat) : nat := length (nodup Nat.eq_dec l).
 Definition shape_of (t : table) (nedges drop : nat) (v : view) : list nat :=
   skipn drop [count_distinct (map (cell_of t) v); count_distinct (map (branch_of t) v); length v] ++ [nedges].
+
+(* .shape with the number of synapses IN VIEW as last entry (what _reformat_index compares the
+   length of a boolean mask with) *)
+Definition shape_of_e (t : table) (edges : list (nat * nat)) (drop : nat) (v : view) : list nat :=
+  shape_of t (length (edges_in_view edges (seq 0 (length edges)) v)) drop v.
